@@ -53,6 +53,7 @@ type runner struct {
 	runsOf   []int // fn begins per task
 
 	yseen map[yieldKey]int
+	qhPopping bool // the queue handler is between its slot check and the end of its pick section
 	stat  map[string]int
 }
 
@@ -159,6 +160,18 @@ func sink(point string, args ...any) {
 			r.yield(strings.TrimPrefix(point, "yield:tasks:"), args)
 		}
 	case strings.HasSuffix(point, ":begin"):
+		if point == "tasks:qh-pop:begin" {
+			// the queue handler has found every slot free and is about to pick: a place to be delayed (yield "qh-pop")
+			G.Lock()
+			r := cur
+			if r != nil {
+				r.qhPopping = true // the scenario is not quiescent while the queue handler is on its way to a pick
+			}
+			G.Unlock()
+			if r != nil && len(r.scn.Yields) > 0 {
+				r.yield("qh-pop", nil)
+			}
+		}
 		G.Lock() // held until the matching end event
 		if cur != nil && point == "tasks:sh-fetch:begin" {
 			cur.shGid = goid()
@@ -216,6 +229,7 @@ func (r *runner) end(p string, args []any) {
 	now := r.nowRel()
 	switch p {
 	case "qh-pop:end":
+		r.qhPopping = false
 		var e *list.Element
 		if len(args) > 0 {
 			e, _ = args[0].(*list.Element)
@@ -390,7 +404,7 @@ func (r *runner) taskFn(k int) func(context.Context, *modules.Task) error {
 
 // quiescent: nothing waits, nothing runs, no handler holds a task. Caller holds r.g.
 func (r *runner) quiescent() bool {
-	if r.hold != 0 || r.preSpawn != 0 {
+	if r.hold != 0 || r.preSpawn != 0 || r.qhPopping {
 		return false
 	}
 	for k := range r.tks {
